@@ -46,7 +46,7 @@ def opts_of(step):
 
 def c05(cases, res):
     out = []
-    checked = 0
+    checked = symbol_choices = 0
     for case in cases:
         for i, prev, s in steps_with_prev(case):
             syms = lst(s.snap.get("syms", ""))
@@ -93,6 +93,19 @@ def c05(cases, res):
                 # a symbol was inserted: exactly at the cursor, cursor advanced by one
                 if syms[:pcur] != psyms[:pcur] or syms[pcur + 1:] != psyms[pcur:] or cur != pcur + 1:
                     out.append(fail("insert-frame", case, i, "%s@%d -> %s@%d" % (psyms, pcur, syms, cur)))
+        # a symbol chosen from the symbol table (list opened with the backquote key / Ctrl-digit: it INSERTS): exactly at
+        # the cursor, and the cursor advances by one - by a key or by a choose call
+        for i, prev, s in steps_with_prev(case):
+            if prev is None or state_of(prev) != "Selecting" or prev.snap.get("sel") != "Y" or prev.snap.get("action") != "I":
+                continue
+            if state_of(s) != "Entering" or s.res == "Commit" or not (is_key(s) or s.op[0] in ("select", "cchoose", "ckey", "cdefault")):
+                continue
+            psyms, syms = lst(prev.snap.get("syms", "")), lst(s.snap.get("syms", ""))
+            pcur, cur = int(prev.snap["cursor"]), int(s.snap["cursor"])
+            if len(syms) == len(psyms) + 1:
+                symbol_choices += 1
+                if syms[:pcur] != psyms[:pcur] or syms[pcur + 1:] != psyms[pcur:] or cur != pcur + 1:
+                    out.append(fail("symbol-insert-frame", case, i, "%s@%d -> %s@%d" % (psyms, pcur, syms, cur)))
         # syllable completion (EnteringSyllable -> Entering with one more symbol)
         for i, prev, s in steps_with_prev(case):
             if prev is None or not is_key(s) or state_of(prev) != "EnteringSyllable":
@@ -103,6 +116,7 @@ def c05(cases, res):
                 if syms[:pcur] != psyms[:pcur] or syms[pcur + 1:] != psyms[pcur:] or (state_of(s) == "Entering" and cur != pcur + 1):
                     out.append(fail("syllable-insert-frame", case, i, "%s@%d -> %s@%d" % (psyms, pcur, syms, cur)))
     res.notes["oracle_keys_checked"] = checked
+    res.notes["oracle_symbol_table_insertions_checked"] = symbol_choices
     return out
 
 
@@ -732,13 +746,29 @@ def c01(cases, res):
 
 # ---------------------------------------------------------------- C08
 
+_BREAK = None
+
+
+def break_words():
+    """the one-character break words of the editor, read from the regenerated table (Gen/Editor_gen.v)"""
+    global _BREAK
+    if _BREAK is None:
+        import os
+        import re
+        from .common import GEN
+        txt = open(os.path.join(GEN, "Editor_gen.v"), encoding="utf-8").read()
+        m = re.search(r"Definition break_words[^:]*:[^=]*:=\s*\[(.*?)\]\.", txt, re.S)
+        _BREAK = set(int(x) for x in re.findall(r"\[(\d+)\]", m.group(1))) if m else set()
+    return _BREAK
+
+
 def c08(cases, res):
     """learning on the editor histories: a whole-buffer commit (Enter / commit_preedit_buf) with learning
     enabled leaves every multi-character phrase of the displayed conversion in the user dictionary under
     the syllables it covers with a frequency not below the one it had (in either layer); with learning
     disabled the user dictionary is untouched by the commit"""
     out = []
-    commits = learned = disabled = 0
+    commits = learned = disabled = singles = 0
     for case in cases:
         sys_ = case_dict(case)
         for i, prev, s in steps_with_prev(case):
@@ -768,6 +798,31 @@ def c08(cases, res):
                     out.append(fail("committed-phrase-not-recorded", case, i, "%s under %s; user dictionary %s" % (t, key, after.get(key))))
                 elif now < was and was <= 99999999:
                     out.append(fail("frequency-lowered", case, i, "%s under %s: %d -> %d" % (t, key, was, now)))
+            # "... and an explicitly chosen single character": a one-character interval the user chose (a selection of
+            # exactly that range and text) that is not a break word and whose neighbours are not such characters either
+            # (adjacent single characters are recorded together as one run) is in the user dictionary under its syllable
+            ivs = prev.dconv["ivs"]
+            bw = break_words()
+
+            def single(iv):
+                b, e, kind, text = iv
+                return kind == "P" and e - b == 1 and len(text) == 1 and text[0] not in bw and syms[b].startswith("S")
+            chosen = set(x for x in prev.snap.get("sels", "").split(",") if x)
+            for j, iv in enumerate(ivs):
+                if not single(iv) or (j > 0 and single(ivs[j - 1])) or (j + 1 < len(ivs) and single(ivs[j + 1])):
+                    continue
+                b, e, _, text = iv
+                if "%d-%d:P:%d" % (b, e, text[0]) not in chosen:
+                    continue
+                singles += 1
+                key, t = syms[b][1:], str(text[0])
+                was = max(before.get(key, {}).get(t, 0), sys_.get(key, {}).get(t, 0))
+                now = after.get(key, {}).get(t)
+                if now is None:
+                    out.append(fail("chosen-character-not-recorded", case, i, "%s under %s; user dictionary %s" % (t, key, after.get(key))))
+                elif now < was and was <= 99999999:
+                    out.append(fail("frequency-lowered", case, i, "%s under %s: %d -> %d" % (t, key, was, now)))
+    res.notes["oracle_chosen_single_characters_checked"] = singles
     res.notes["oracle_whole_buffer_commits"] = commits
     res.notes["oracle_phrases_checked"] = learned
     res.notes["oracle_commits_with_learning_disabled"] = disabled
